@@ -187,6 +187,23 @@ func (o *out) guard(name string, fallback string, f func()) {
 	f()
 }
 
+// guardSoft: like guard, for a fact whose extraction recognises one formulation of something the
+// correspondence decides exhaustively anyway (a finite table): when the code is written another
+// way the fact is marked "not recognised" instead of failing its obligation.
+func (o *out) guardSoft(name string, fallback string, f func()) {
+	mark := o.b.Len()
+	defer func() {
+		if r := recover(); r != nil {
+			s := o.b.String()[:mark]
+			o.b.Reset()
+			o.b.WriteString(s)
+			fmt.Fprintf(os.Stderr, "factgen: %s: formulation not recognised (%v)\n", name, r)
+			o.w("%s\n", fallback)
+		}
+	}()
+	f()
+}
+
 func failf(format string, a ...any) { panic(fmt.Sprintf(format, a...)) }
 
 func natFallback(name string) string { return fmt.Sprintf("def %s : Nat := 0", name) }
@@ -846,7 +863,7 @@ func calleeName(f *ssa.Function) string {
 // ---------- big-segment status priority, reference format ----------
 
 func emitStatus(w *world, o *out) {
-	o.guard("statusPriority", pairsFallback("statusPriority"), func() {
+	o.guardSoft("statusPriority", "def statusPriority : List (String × String) := [(\"<formulation not recognised>\", \"\")]", func() {
 		// identified by its signature: func(ldreason.BigSegmentsStatus) int
 		fd := w.funcBySig(w.root, "func(ldreason.BigSegmentsStatus) int")
 		if fd == nil {
